@@ -27,7 +27,9 @@ def run(ctx):
         "block payload = concatenation of the frame events' payloads in frame order (contiguous, creator order); frame of "
         "round r = exactly the stored events with round-received r, sorted by Lamport timestamp, payload as created; "
         "Lamport timestamp = 1 + max of the parents'.")
-    for fl in ("split", "stall", "splitfaults"):
+    for fl in ("split", "stall", "splitfaults", "dyn"):
+        # dyn: membership requests in the payload, some of them retried through a second validator (the same request body under
+        # another signature in two events, often of the same frame): the block must carry the payload of its events whole
         # split: directed schedules (later round decided before an earlier one); stall: quorum loss then recovery with node 0 on
         # a BadgerStore whose cache (100) is smaller than the undetermined backlog: C04 oracle on that node after every action
         r2 = simcommon.run(ctx, fl)
